@@ -41,6 +41,17 @@ prop("C16", True,
      "Trusted: aglref (own parser and own implementation of the AGL algorithm); the compat table in compat.go is taken as the 'documented expansion'; the library's Tcommaaccent/tcommaaccent fix-up (021A/021B) is tolerated as a documented deviation and counted separately.",
      "DESIGN.md section 6 C16")
 
+prop("C12", True,
+     "environment exploration: an io.Reader whose every answer is decided by the explorer, deviation-bounded exhaustive search over delivery schedules; all subsets of token boundaries for Execute-splitting",
+     "For 27 corpus inputs (programs incl. eexec hex/binary, readstring, DSC, CheckStart; 4 CMaps; the sample font in 4 containers; 3 AFM files; 6 PFB streams) every delivery schedule with <=3 (thorough 4) deviations from 'fill the buffer' (deliver 1,2,3,7,511 bytes, or the last bytes together with EOF) is explored against the real readers, plus always-1/2/3/7-byte schedules and seekable/non-seekable sources for fonts; every set of <=3 (4) token boundaries of the token-structured programs is fed as consecutive Execute calls. Observation (canonical interpreter state / deep dump + error text) must equal the single-read run. Exhaustive inside the deviation bound for the fixed corpus.",
+     "Fixed corpus; readers returning (0,nil) forever excluded; observe.Dump / pscmp.Canon trusted as complete renderings.",
+     "DESIGN.md section 6 C12")
+prop("C13", True,
+     "exhaustive single-fault injection: read fault at every byte offset, truncation at every offset, write fault at every Write call index and every byte offset",
+     "For every corpus input a sentinel read fault is injected at EVERY byte offset (2 delivery styles, seekable and plain for fonts): if the fault reached the library the call must return an error, otherwise the complete result; every font container and CMap file is cut at EVERY offset and must give an error or the complete result; for 3 fonts x 6 writer invocations and 3 metrics values a transient fault is injected at EVERY Write call and a short write at EVERY byte offset, each of which must surface as an error. All enumerations complete for the corpus.",
+     "Single faults only; fixed corpus; a read fault beyond the point where the reader legitimately stops (PFB end marker) is not required to surface.",
+     "DESIGN.md section 6 C13", category="fault_enumeration")
+
 def main():
     checks, na = [], []
     props = [json.loads(l) for l in open(os.path.join(ROOT, "properties.jsonl"))]
